@@ -206,11 +206,11 @@ func HarnessC19Errors() {
 		verifCSV(in, append([][]string{header}, recs...), -1)
 	case 2: // output exists already
 		verifCSV(in, append([][]string{header}, recs...), -1)
-		verifMakeFile(out, 1+verifChoice("existing", 3))
+		verifMakeFile(out, 1+verifChoice("existing", 4)) // empty, arbitrary bytes, bbolt file, dangling symbolic link
 	}
 	if kind != 2 && verifBool("output-exists") {
 		// a malformed input AND an existing output: the output must still be left alone
-		verifMakeFile(out, 1+verifChoice("existing", 3))
+		verifMakeFile(out, 1+verifChoice("existing", 4)) // empty, arbitrary bytes, bbolt file, dangling symbolic link
 	}
 	before := verifFileVersion(out)
 	existed := verifFileKind(out) != 0
